@@ -86,8 +86,11 @@ def decide_kani_units(units, tier, workdir, prop):
                 continue
             t0 = time.time()
             cmd = ["cargo", "kani", "-Z", "function-contracts", "-Z", "stubbing"] + u.get("kani_args", [])
+            rel = u["target_file"].split("src/", 1)[1][:-3]
+            modpath = "::".join(x for x in rel.split("/") if x not in ("mod", "lib", "main"))
             for h in hs:
-                cmd += ["--harness", h["name"]]
+                cmd += ["--harness", "::".join(x for x in [modpath, mods[u["name"]], h["name"]] if x)]
+            cmd += ["--exact"]
             cmd += (["-j", str(min(8, len(hs))), "--output-format", "terse"] if len(hs) > 1 else [])
             timeout = sum(h.get("timeout", 300) for h in hs) + 240
             try:
@@ -107,6 +110,11 @@ def decide_kani_units(units, tier, workdir, prop):
                     raise R.Infra(f"{u['name']}: harness {h['name']} gave no verdict (out of memory / crash?):\n{(out + err)[-2000:]}")
                 if pr["covers"] and pr["covers"][0] < pr["covers"][1]:
                     raise R.Infra(f"{u['name']}: harness {h['name']}: cover property unsatisfied -> vacuous assumptions")
+                ign = u.get("ignore_checks", [])
+                real_fc = [c for c in pr["failed_checks"] if not any(i in c for i in ign)]
+                if not pr["ok"] and pr["failed_checks"] and not real_fc:
+                    pr["ok"] = True  # only checks this unit declares out of scope (listed in its assumptions) failed
+                pr["failed_checks"] = real_fc
                 ob = {"name": f"{u['name']}/{h['name']}", "backend": "kani", "ok": pr["ok"], "us": int(pr["time"] * 1e6)}
                 if h.get("bounded"):
                     ob["bounded"] = h["bounded"]
